@@ -6,7 +6,6 @@ import os
 V = os.path.dirname(os.path.dirname(os.path.abspath(__file__)))
 
 NA = {
-    "C03": "sample-exact equality with an independent encoder is a value-level statement over all sample values and tree shapes; no clause of it is visible in the shape of the code",
 }
 
 CHECKS = {
@@ -110,6 +109,15 @@ CHECKS = {
              "Does not decide any numerical property of the kernels.",
         note="kernel families are recognised by name after stripping the architecture suffix",
         ref="DESIGN.md section 3 C16"),
+    "C03": dict(
+        technique="comparison of rustc-evaluated format tables and enum code maps with references transcribed from the standard; sibling cross-check of the two channel-partition predicates on MIR",
+        text="Claimed narrowly: three structural necessary conditions of exact lossless decoding. The weighted-predictor reciprocal table "
+             "and the delta palette have the specified values; the 14 predictor codes denote the specified predictors (enum discriminants "
+             "and the TryFrom<u32> switch); the predicate that keeps a channel in the global section and the one that skips it when "
+             "group sections are laid out are identical, so every channel is decoded exactly once, and the LF-group shift threshold is "
+             "used consistently. Does not decide that decoded samples equal the encoded integers.",
+        note="everything arithmetic about prediction, context trees, fast paths and inverse transforms is undecided",
+        ref="DESIGN.md section 8.14"),
     "C04": dict(
         technique="comparison of rustc-evaluated constant tables with references transcribed from the standards; validation-check reconstruction from MIR against a reviewed table; constant-agreement rule on the LZ77 window",
         text="Claimed narrowly: three structural necessary conditions. The tables the entropy decoder takes from the format (LZ77 special "
